@@ -97,7 +97,7 @@ func coordMain(args []string) {
 		}
 	case "C11":
 		if q {
-			phases = []phase{{name: "plain", runs: 700, deadline: 45 * time.Second}, {name: "race", race: true, runs: 400, deadline: 45 * time.Second}}
+			phases = []phase{{name: "plain", runs: 700, deadline: 45 * time.Second}, {name: "race", race: true, runs: 1500, deadline: 45 * time.Second}}
 		} else {
 			phases = []phase{{name: "plain", runs: 2000000, deadline: 12 * time.Minute}, {name: "race", race: true, runs: 2000000, deadline: 15 * time.Minute}}
 		}
